@@ -458,6 +458,20 @@ def fold(tree, env=None):
             if short == "wrapping_sub":
                 return _wrap(vals[0] - vals[1], ty)
         raise Unfoldable("call %s" % key)
+    if k == "idx" or k == "cidx":
+        base = tree[1]
+        while base[0] in ("*", "&"):
+            base = base[1]
+        arr = fold_const_value(base, env)
+        i = fold(tree[2], env) if k == "idx" else tree[2]
+        if not isinstance(arr, tuple) or not (0 <= i < len(arr)):
+            raise Unfoldable("index %r out of a constant of length %s" % (i, len(arr) if isinstance(arr, tuple) else "?"))
+        v = arr[i]
+        if isinstance(v, bool):
+            return int(v)
+        if isinstance(v, int):
+            return v
+        raise Unfoldable("indexed element is not an integer")
     if k == "f" and tree[1][0] == "call" and tree[2] == "0":
         # (overflowing_mul(a, b)).0
         inner = tree[1]
@@ -473,6 +487,21 @@ def fold(tree, env=None):
             if opn == "sub":
                 return _wrap(vals[0] - vals[1], ty)
     raise Unfoldable("node %s" % k)
+
+
+def fold_const_value(tree, env=None):
+    """value of a constant tree that may be an array (tuple), following constant indexing"""
+    if tree[0] == "c":
+        return tree[1]
+    if tree[0] in ("*", "&"):
+        return fold_const_value(tree[1], env)
+    if tree[0] in ("idx", "cidx"):
+        arr = fold_const_value(tree[1], env)
+        i = fold(tree[2], env) if tree[0] == "idx" else tree[2]
+        if not isinstance(arr, tuple) or not (0 <= i < len(arr)):
+            raise Unfoldable("index out of constant")
+        return arr[i]
+    raise Unfoldable("not a constant: %s" % tree[0])
 
 
 def _ty_of(tree):
